@@ -4,9 +4,11 @@ import (
 	"context"
 	"encoding/json"
 	"fmt"
+	"os"
 	"sort"
 	"strings"
 	"sync"
+	"sync/atomic"
 
 	"github.com/nspcc-dev/neo-go/pkg/core/dao"
 	"github.com/nspcc-dev/neo-go/pkg/core/storage"
@@ -338,6 +340,7 @@ type aliasRec struct {
 	Script      *scriptCase `json:"script_case,omitempty"`
 	Put         *putCase    `json:"put_case,omitempty"`
 	Own         *ownCase    `json:"own_case,omitempty"`
+	Late        *lateCase   `json:"call_snapshot_case,omitempty"`
 	PutIdx      int         `json:"put_reuse_index,omitempty"`
 	Prior       []string    `json:"earlier_writing_cases_on_this_stack,omitempty"`
 	Case        string      `json:"case"`
@@ -358,10 +361,14 @@ type aliasStats struct {
 	count    map[string]int64
 	scripts  int64
 	jobsDone int64
+	lateJobs int64
+	reported map[string]bool
+	// observations that are counted but are no outcome classes (they depend on goroutine scheduling)
+	notes map[string]int64
 }
 
 func newAliasStats() *aliasStats {
-	return &aliasStats{cases: map[string]int64{}, out: map[string]int64{}, best: map[string]*aliasRec{}, count: map[string]int64{}}
+	return &aliasStats{cases: map[string]int64{}, out: map[string]int64{}, best: map[string]*aliasRec{}, count: map[string]int64{}, notes: map[string]int64{}}
 }
 
 func (st *aliasStats) merge(o *aliasStats) {
@@ -372,6 +379,9 @@ func (st *aliasStats) merge(o *aliasStats) {
 	}
 	for k, v := range o.out {
 		st.out[k] += v
+	}
+	for k, v := range o.notes {
+		st.notes[k] += v
 	}
 	st.applied += o.applied
 	st.scripts += o.scripts
@@ -503,6 +513,9 @@ func runAliasJob(en *env, j aliasJob, thorough bool, order int, only *aliasRec) 
 				runScriptCase(*only.Script, prior)
 				return st
 			}
+			if only == nil && c.Sub == "early-action" && lateSnapshotSuspected.Load() && j.Shape[len(j.Shape)-1] == 'p' {
+				continue
+			}
 			runScriptCase(c, append([]string{}, prior...))
 			prior = append(prior, c.String())
 		}
@@ -533,32 +546,84 @@ func runAliasJob(en *env, j aliasJob, thorough bool, order int, only *aliasRec) 
 	return st
 }
 
-// runAlias is the round-2 phase of TestCheck.
+// lateSnapshotSuspected: the call-snapshot family failed on the shared (locked)
+// layers. A scan that takes its snapshot late reads the maps of a PRIVATE layer
+// while the caller writes them - a fatal runtime error that no recover() catches -
+// so the cases that write to a private layer between the call and the first
+// receive are then left out (the run is reported as not exhaustive).
+var lateSnapshotSuspected atomic.Bool
+
+// runAlias is the round-2/3 phase of TestCheck.
 func runAlias(r *vk.Run, envs chan *env) *aliasStats {
 	jobs := aliasJobs(r.Thorough())
 	total := newAliasStats()
-	r.Parallel(len(jobs), func(i int) {
-		en := <-envs
-		defer func() { envs <- en }()
-		total.merge(runAliasJob(en, jobs[i], r.Thorough(), i, nil))
-	})
+	// round 3: the moment a scan answers for (late_test.go), on stacks of its own;
+	// shared top layers first
+	var lshared, lprivate []aliasJob
+	for _, j := range lateJobs(r.Thorough()) {
+		if j.Shape[len(j.Shape)-1] == 'p' {
+			lprivate = append(lprivate, j)
+		} else {
+			lshared = append(lshared, j)
+		}
+	}
+	lateOn := os.Getenv("C09_LATE") != "off" // development switch
+	runLate := func(ljobs []aliasJob, base int) {
+		if !lateOn {
+			return
+		}
+		r.Parallel(len(ljobs), func(i int) {
+			en := <-envs
+			defer func() { envs <- en }()
+			st := runLateJob(en, ljobs[i], r.Thorough(), base+i, nil)
+			total.merge(st)
+			atomic.AddInt64(&total.lateJobs, 1)
+		})
+	}
+	runLate(lshared, 0)
+	total.report(r)
+	if len(total.best) > 0 {
+		lateSnapshotSuspected.Store(true)
+		r.Capped()
+		fmt.Println("C09 call-snapshot: failures on shared layers - cases writing to a private layer between call and first receive are skipped (a late snapshot there is a fatal map race, not a recoverable panic)")
+	}
+	if os.Getenv("C09_LATE") != "only" {
+		r.Parallel(len(jobs), func(i int) {
+			en := <-envs
+			defer func() { envs <- en }()
+			total.merge(runAliasJob(en, jobs[i], r.Thorough(), len(lshared)+i, nil))
+		})
+	}
+	if !lateSnapshotSuspected.Load() {
+		runLate(lprivate, len(lshared)+len(jobs))
+	}
+	total.jobsDone -= total.lateJobs
 	total.report(r)
 	for k := range total.out {
 		r.Outcome("alias:" + k)
 	}
-	fmt.Printf("C09 alias families: stacks=%d/%d cases=%v scripts=%d overwrites_applied=%d distinct_outcomes=%d failing_buckets=%d elapsed=%.0fs\n",
-		total.jobsDone, len(jobs), total.cases, total.scripts, total.applied, len(total.out), len(total.best), r.Elapsed())
+	fmt.Printf("C09 alias families: stacks=%d/%d call-snapshot stacks=%d/%d cases=%v scripts=%d overwrites_applied=%d distinct_outcomes=%d failing_buckets=%d elapsed=%.0fs\n",
+		total.jobsDone, len(jobs), total.lateJobs, len(lshared)+len(lprivate), total.cases, total.scripts, total.applied, len(total.out), len(total.best), r.Elapsed())
 	return total
 }
 
+// report prints every failing bucket once (it may be called between phases).
 func (st *aliasStats) report(r *vk.Run) {
+	st.mu.Lock()
+	defer st.mu.Unlock()
 	var ks []string
 	for k := range st.best {
-		ks = append(ks, k)
+		if !st.reported[k] {
+			ks = append(ks, k)
+		}
 	}
 	sort.Strings(ks)
 	for _, k := range ks {
 		rec := st.best[k]
+		if st.reported == nil {
+			st.reported = map[string]bool{}
+		}
+		st.reported[k] = true
 		r.Violation(k+":"+rec.Job.String()+":"+rec.Case, *rec)
 	}
 }
@@ -572,7 +637,20 @@ func (st *aliasStats) coverage(cov map[string]any) {
 		total += n
 	}
 	cov["alias_cases_total"] = int(total)
-	cov["alias_family_names"] = "find-script/prefix, find-script/item, find-script/action, put-script, arg-own, put-reuse (+ in the per-state battery: Find with a reused prefix Buffer, results re-read after Finalize)"
+	cov["alias_family_names"] = "find-script/prefix, find-script/item, find-script/action, find-script/early-action, put-script, arg-own, put-reuse, call-snapshot (+ in the per-state battery: Find with a reused prefix Buffer, results re-read after Finalize)"
+	cov["call_snapshot_stacks"] = int(st.lateJobs)
+	seen, unseen := int64(0), int64(0)
+	for k, n := range st.notes {
+		if strings.HasSuffix(k, "seen=true") {
+			seen += n
+		} else {
+			unseen += n
+		}
+	}
+	// scheduling-dependent by nature (the lower layers are snapshotted when the scan goroutine gets there)
+	cov["call_snapshot_lower_layer_write_seen_not_judged"] = int(seen)
+	cov["call_snapshot_lower_layer_write_unseen_not_judged"] = int(unseen)
+	cov["call_snapshot_lower_layer_writes_not_judged"] = st.notes
 	cov["alias_scripts_run_in_real_vm"] = int(st.scripts)
 	cov["alias_overwrites_applied_during_scan"] = int(st.applied)
 	cov["alias_distinct_outcomes"] = len(st.out)
@@ -585,6 +663,8 @@ func (st *aliasStats) coverage(cov map[string]any) {
 		"put-script: Put / Local.Put with Buffer key and Buffer value, both mutated afterwards, optional Delete with the reused key buffer; Get + whole-contract Find",
 		"arg-own: MemCachedStore.SeekAsync (with and without prefix cutting), dao.SeekAsync, dao.Seek: prefix / start / both overwritten (last byte changed, all 0xff) at stage 0 (before the lower store is scanned), 1, 2 (while delivering) over every range of the scenario",
 		"put-reuse: dao.PutStorageItem / MemCachedStore.Put, key and value slices overwritten after the call; Get + class scan",
+		"find-script/early-action (round 3): the write sits between Find and the FIRST Next (Put new in range / overwrite / Delete in range / Put outside / Delete the new key / Put+Delete of two keys in range; System.Storage.* and Local.*) x Gosched none / before / after the write (a pseudo syscall) x 5 option sets x both directions x ByteString / reused Buffer prefix; first scan = EXACTLY the content at Find, second scan exactly the new content",
+		"call-snapshot (round 3): MemCachedStore.SeekAsync plain / cutPrefix / cutPrefix+SearchDepth 1 and dao.SeekAsync on the top layer (shared and private) x every range of the scenario x ONE action between the return of the call and the first receive (put of an invisible key: new in range, beside the range, exactly Prefix+Start, other class / overwrite / delete of a visible key, through dao.PutStorageItem/DeleteStorageItem or the store / PutChangeSet{put,delete} / Persist of the scanned layer (private layer: freshly built stack per case) / caller overwrites its Prefix+Start slices) x runtime.Gosched none / before / after the action; answer = EXACTLY the reference of the moment the call returned, whatever the goroutine scheduling; with no Gosched a synchronous Seek of the same range follows (new content). The model follows the actions, so the layer's content (values, tombstones over lower values) varies along the sequence. A write to the layer BELOW after the call is counted (seen / not seen), not judged",
 	}
 }
 
@@ -607,7 +687,12 @@ func replayAlias(r *vk.Run) {
 	seen := map[string]int{}
 	for i := 0; i < 5; i++ {
 		en := newEnv()
-		st := runAliasJob(en, rec.Job, r.Thorough(), 0, &rec)
+		var st *aliasStats
+		if rec.AliasFamily == "call-snapshot" {
+			st = runLateJob(en, rec.Job, r.Thorough(), 0, &rec)
+		} else {
+			st = runAliasJob(en, rec.Job, r.Thorough(), 0, &rec)
+		}
 		en.close()
 		hit := "clean"
 		for _, b := range st.best {
